@@ -205,6 +205,9 @@ def obligations(tier):
     for kinds in ([], ["fcp"], ["1394"], ["rdma"], ["sas"], ["iscsi-name"], ["iscsi-name-isid"], ["sas", "fcp"],
                   ["iscsi-name", "rdma", "sas"]):
         add("prin-readfullstatus/%s" % "+".join(kinds or ["none"]), "h_simple", fmt="prin-readfullstatus", arg=[kinds, 9])
+    for k in ("iscsi-name-utf8", "iscsi-name-isid-utf8", "iscsi-name-isid-upper"):
+        for nl in (25, 26, 27):
+            add("prin-readfullstatus/%s-len=%d" % (k, nl), "h_simple", fmt="prin-readfullstatus", arg=[[k], nl])
     for nl in ((1, 2, 3, 4, 10, 11, 12) if q else range(1, 40)):
         add("prin-readfullstatus/iscsi-name-len=%d" % nl, "h_simple", fmt="prin-readfullstatus", arg=[["iscsi-name"], nl])
         add("prin-readfullstatus/iscsi-isid-name-len=%d" % nl, "h_simple", fmt="prin-readfullstatus",
@@ -219,6 +222,12 @@ def obligations(tier):
     for cfg in R.READCD_CONFIGS:
         for ns in ((1, 2) if q else (1, 2, 3)):
             add("readcd/%s/sectors=%d" % (cfg, ns), "h_read_cd", config=cfg, nsectors=ns)
+    # a command object decoded again after the device answered differently (the decode path of SCSICommand.unmarshall):
+    # the obligations of C13's h_reuse, which state exactly that
+    from . import c13
+    for o in c13.obligations(tier):
+        if o.name.startswith("reuse/"):
+            obs.append(Ob("command-" + o.name, o.module, o.func, o.params, canary=False))
     return obs
 
 
